@@ -686,8 +686,9 @@ class EvolvableModule(nn.Module, metaclass=ModuleMeta):
         :rtype: SelfEvolvableModule
         """
         clone = self.__class__(**copy.deepcopy(self.get_init_dict()))
-        clone._layer_mutation_methods = self._layer_mutation_methods
-        clone._node_mutation_methods = self._node_mutation_methods
+        # Copies: the lists are extended in place when a nested module is assigned to either of them
+        clone._layer_mutation_methods = list(self._layer_mutation_methods)
+        clone._node_mutation_methods = list(self._node_mutation_methods)
 
         # Load state dict if the network has been trained
         try:
